@@ -57,5 +57,7 @@ C12_OK(cfg, in, o) ==
    /\ (in.pres # "raw" /\ ~Over(cfg, in)) => o.same
    /\ (in.pres = "raw" \/ ~Over(cfg, in)) => (o.res = (IF in.good THEN "accept" ELSE "reject"))
 C09_OK(cfg, in, o) == o.res \in {"accept", "reject"}
+\* C08 (fragment): a genuine message within the limit is accepted, compressed or not
+C08_OK(cfg, in, o) == (in.good /\ (in.pres = "raw" \/ ~Over(cfg, in))) => o.res = "accept"
 Conforms(m, o) == o.res = m.res
 =============================================================================
